@@ -602,6 +602,9 @@ def find_group_cohorts(
         merged_keys.update(cohort)
         allchunks = (label_chunks[member].tolist() for member in cohort)
         chunk = tuple(set(itertools.chain(*allchunks)))
+        if chunk in merged_cohorts:
+            # another merged cohort spans exactly the same blocks: they are one cohort (do not overwrite it)
+            cohort = sorted(merged_cohorts[chunk] + cohort)
         merged_cohorts[chunk] = cohort
 
     actual_ngroups = np.concatenate(tuple(merged_cohorts.values())).size
